@@ -36,4 +36,120 @@ theorem roundHalfEven_int (k : Int) : roundHalfEven (k : Rat) = k := by
   simp
 
 
+theorem inRange_of_getD (ns is : List Nat) (hl : is.length = ns.length)
+    (h : ∀ a, a < ns.length → is.getD a 0 < ns.getD a 0) : inRange ns is = true := by
+  induction ns generalizing is with
+  | nil => cases is <;> simp_all [inRange]
+  | cons n ns ih =>
+    cases is with
+    | nil => simp at hl
+    | cons i is =>
+      rw [inRange_cons]
+      refine ⟨by simpa using h 0 (by simp), ih is (by simpa using hl) ?_⟩
+      intro a ha
+      simpa using h (a + 1) (by simpa using ha)
+
+theorem list_eq_of_getD {α} (l1 l2 : List α) (d : α) (hl : l1.length = l2.length)
+    (h : ∀ a, a < l1.length → l1.getD a d = l2.getD a d) : l1 = l2 := by
+  rw [eq_tab_of_getD l1 l1.length (fun a => l2.getD a d) d rfl h]
+  exact (eq_tab_of_getD l2 l1.length (fun a => l2.getD a d) d hl.symm (fun _ _ => rfl)).symm
+
+theorem containsPt_of_exact (r : Region) (p : List Rat) (h : r.containsExact p) : r.containsPt p = true := by
+  obtain ⟨hl, hb⟩ := h
+  unfold Region.containsPt
+  have : decide (p.length = r.ndim) = true := by simpa using hl
+  rw [this, Bool.true_and, allLt_iff]
+  intro a ha
+  exact containsAx_of_exact r a _ (hb a ha).1 (hb a ha).2
+
+theorem ratProd_map_mul {α} (l : List α) (f g : α → Rat) :
+    ratProd (l.map f) * ratProd (l.map g) = ratProd (l.map fun x => f x * g x) := by
+  induction l with
+  | nil => simp [ratProd]
+  | cons x xs ih => simp only [List.map_cons, ratProd]; rw [← ih]; ring
+
+theorem natProd_cast (l : List Nat) : ((natProd l : Nat) : Rat) = ratProd (l.map (Nat.cast : Nat → Rat)) := by
+  induction l with
+  | nil => simp [natProd, ratProd]
+  | cons x xs ih => simp only [natProd, List.map_cons, ratProd]; push_cast; rw [ih]
+
+theorem foldl_min_le_mem (xs : List Rat) (x y : Rat) (h : y = x ∨ y ∈ xs) : xs.foldl min x ≤ y := by
+  induction xs generalizing x with
+  | nil => rcases h with h | h; · simp [h]
+           · simp at h
+  | cons z zs ih =>
+    simp only [List.foldl_cons]
+    rcases h with h | h
+    · exact le_trans (foldl_min_le zs _) (by rw [h]; exact min_le_left _ _)
+    · rcases List.mem_cons.mp h with h | h
+      · exact le_trans (foldl_min_le zs _) (by rw [h]; exact min_le_right _ _)
+      · exact ih _ (Or.inr h)
+
+theorem listMin_le_mem (xs : List Rat) (y : Rat) (h : y ∈ xs) : listMin xs ≤ y := by
+  cases xs with
+  | nil => simp at h
+  | cons x xs =>
+    unfold listMin
+    rcases List.mem_cons.mp h with h | h
+    · exact foldl_min_le_mem xs x y (Or.inl h)
+    · exact foldl_min_le_mem xs x y (Or.inr h)
+
+theorem round_near (e c t : Rat) (hc : 0 < c) (_ht : 0 ≤ t) (htc : t < c / 2)
+    (h : notDivisible e c t = false) :
+    |e - (roundHalfEven (e / c) : Rat) * c| ≤ t := by
+  unfold notDivisible at h
+  have hfl := rat_floor_le (e / c)
+  have hfu := rat_lt_floor_add_one (e / c)
+  set f := (e / c).floor with hf
+  have hrem : remainder e c = e - (f : Rat) * c := rfl
+  have he : e = (e / c) * c := by field_simp
+  have hr0 : 0 ≤ e - (f : Rat) * c := by nlinarith
+  have hr1 : e - (f : Rat) * c < c := by nlinarith
+  have hfrac : e / c - (f : Rat) = (e - (f : Rat) * c) / c := by field_simp
+  rw [hrem] at h
+  have hcases : e - (f : Rat) * c ≤ t ∨ c - t ≤ e - (f : Rat) * c := by
+    by_contra hcon
+    rw [not_or, not_le, not_le] at hcon
+    simp [hcon.1, hcon.2] at h
+  unfold roundHalfEven
+  rw [← hf]
+  rcases hcases with h1 | h1
+  · have : e / c - (f : Rat) < 1 / 2 := by
+      rw [hfrac, div_lt_iff₀ hc]; linarith
+    rw [if_pos this, abs_of_nonneg hr0]; exact h1
+  · have h2 : 1 / 2 < e / c - (f : Rat) := by
+      rw [hfrac, lt_div_iff₀ hc]; linarith
+    have h3 : ¬ (e / c - (f : Rat) < 1 / 2) := by linarith
+    rw [if_neg h3, if_pos h2]
+    push_cast
+    rw [abs_of_nonpos (by linarith)]
+    linarith
+
+theorem roundHalfEven_nonneg (q : Rat) (hq : 0 ≤ q) : 0 ≤ roundHalfEven q := by
+  have := rat_floor_nonneg q hq
+  unfold roundHalfEven
+  split
+  · exact this
+  · split
+    · omega
+    · split <;> omega
+
+theorem region_inv_of_invB (r : Region) (h : r.invB = true) : r.Inv := by
+  unfold Region.invB at h
+  simp only [Bool.and_eq_true, decide_eq_true_eq, Bool.not_eq_true'] at h
+  obtain ⟨⟨⟨⟨⟨h1, h2⟩, h3⟩, h4⟩, h5⟩, h6⟩ := h
+  refine ⟨h1, h2, h3, h4, h5, ?_⟩
+  intro a ha
+  have := (allLt_iff _ _).mp h6 a ha
+  simpa using this
+
+theorem mesh_inv_of_invB (m : Mesh) (h : m.invB = true) : m.Inv := by
+  unfold Mesh.invB at h
+  simp only [Bool.and_eq_true, decide_eq_true_eq] at h
+  obtain ⟨⟨h1, h2⟩, h3⟩ := h
+  refine ⟨region_inv_of_invB _ h1, h2, ?_⟩
+  intro a ha
+  have := (allLt_iff _ _).mp h3 a ha
+  simpa using this
+
 end DFV.C01
